@@ -185,6 +185,61 @@ def classify_api(ctx):
         ctx.note("accessors the check enumerates are no longer declared in the header: %s" % gone)
 
 
+# ---- the build-configuration dimension ----------------------------------------------------------------------------------
+CFGSRC = os.path.join(HERE, "config.cpp")
+CFG_MODES = [("none", None), ("THROW", "TCB_SPAN_THROW_ON_CONTRACT_VIOLATION"), ("TERMINATE", "TCB_SPAN_TERMINATE_ON_CONTRACT_VIOLATION"), ("NO_CHECKING", "TCB_SPAN_NO_CONTRACT_CHECKING")]
+CFG_ENTRIES = [("xspan.hpp", 0), ("xspan_impl.hpp", 1)]   # both are installed headers (CMakeLists.txt XTL_HEADERS)
+
+
+def expected_checking(ndebug, mode, std):
+    """What a combination MEANS -- the reference semantics, restating the default-selection block of the pinned header
+    (xspan_impl.hpp:60-69 at f387942) and NOT read from the tree under test: the defaults are only established when none of the three
+    mode macros is defined, so an explicit request always wins, also over NDEBUG; without a request NDEBUG (or a pre-C++14 compiler)
+    means no checking and everything else means terminating checks.  0 = no checking, 1 = throwing, 2 = terminating."""
+    if mode == "THROW":
+        return 1
+    if mode == "TERMINATE":
+        return 2
+    if mode == "NO_CHECKING":
+        return 0
+    return 0 if (ndebug or std in ("c++11", "c++0x")) else 2
+
+
+def config_jobs(tier):
+    """[(name, cc, std, ndebug, mode, entry)]"""
+    toolchains = [("g++", "c++14")] if tier == "quick" else [("g++", "c++14"), ("clang++", "c++14"), ("g++", "c++17"), ("g++", "c++20"), ("clang++", "c++20")]
+    out = []
+    for cc, std in toolchains:
+        for ndebug in (False, True):
+            for mode, _ in CFG_MODES:
+                for entry, _ in CFG_ENTRIES:
+                    out.append(("%s,%s,%s" % ("NDEBUG" if ndebug else "no NDEBUG", mode, entry), cc, std, ndebug, mode, entry))
+    return out
+
+
+def build_config(job):
+    name, cc, std, ndebug, mode, entry = job
+    defines = ["C16_EXPECT=%d" % expected_checking(ndebug, mode, std), "C16_ENTRY_IMPL=%d" % dict(CFG_ENTRIES)[entry], 'C16_CONFIG_NAME="%s"' % name]
+    if ndebug:
+        defines.append("NDEBUG")
+    if dict(CFG_MODES)[mode]:
+        defines.append(dict(CFG_MODES)[mode])
+    return vlib.compile_cxx(CFGSRC, "c16cfg", std=std, opt="-O0", san="none", compiler=cc, defines=defines)
+
+
+def config_tag(job):
+    return "c16cfg-%s-%s-%s" % (re.sub(r"[^A-Za-z0-9_.]+", "_", job[0]), job[1].replace("+", "x"), job[2].replace("+", "x"))
+
+
+PINNED_DEFAULT_BLOCK = "efe5a37e55d601aa"
+
+
+def default_block_hash():
+    txt = open(os.path.join(vlib.INCLUDE, "xtl", "xspan_impl.hpp")).read()
+    m = re.search(r"// Establish default contract checking behavior(.*?)#if defined\(TCB_SPAN_THROW_ON_CONTRACT_VIOLATION\)", txt, flags=re.S)
+    return hashlib.sha256(" ".join(m.group(1).split()).encode()).hexdigest()[:16] if m else None
+
+
 # ---- the manifest of template-argument instantiations ---------------------------------------------------------------
 def result_extent(pe, op, o, c):
     """extent of the returned span type as the header declares it today (only used to predict well-formedness:
@@ -446,7 +501,10 @@ def pick_samples(samples):
     want = ["offset+count_overflows/subspan(o,c)", "proper/subspan(o,c)", "count>size-offset/subspan(o,c)", "proper/subspan<O,C>", "offset>size/subspan<O>", "count>size/first<C>",
             "proper/last(c)", "count!=extent/ctor(ptr,count)", "proper/ctor(const vector&)", "offset+count_overflows/subspan(t,o,c)", "proper/subspan<O,C>(t)", "whole/empty/subspan(o)"]
     pool = []
-    for key in sorted(samples, key=lambda k: (k[0] != "checked", k[1])):
+    cfg = []
+    for key in sorted(k for k in samples if k[0] == "config"):
+        cfg += samples[key]
+    for key in sorted((k for k in samples if k[0] != "config"), key=lambda k: (k[0] != "checked", k[1])):
         pool += samples[key]
     out = []
     for w in want:
@@ -459,7 +517,8 @@ def pick_samples(samples):
             break
         if s not in out:
             out.append(s)
-    return out[:12]
+    pick = [x for x in cfg if x.startswith("config NDEBUG,THROW,xspan.hpp") or x.startswith("config no NDEBUG,none,xspan_impl.hpp") or x.startswith("config NDEBUG,none,xspan.hpp")]
+    return out[:9] + pick[:3]
 
 
 def tag_of(mode, part, build):
@@ -567,10 +626,26 @@ def run(ctx):
         for mode in ("checked", "nocheck"):
             for part in sorted(set(bb["elems"]) | set(bb["selems"])):
                 jobs.append((bi, build, mode, part))
+    cjobs = config_jobs(ctx.tier)
     skipped = []
     samples = {}
 
+    def one_config(job):
+        # the build-configuration dimension: one small binary per (NDEBUG?, mode macro, entry header[, compiler/standard])
+        if job[1:3] != cjobs[0][1:3] and (ctx.time_left() < 300 or time.time() - ctx.t0 > BUDGET_S):
+            skipped.append(config_tag(job))
+            return None
+        binary = build_config(job)
+        tag = config_tag(job)
+        kf = os.path.join(keydir, tag + ".keys")
+        recs = ctx.run_harness(binary, ["--keys-out", kf], tag=tag, build=["cfg"] + list(job))
+        if job[1:3] == cjobs[0][1:3]:
+            samples[("config", job[0])] = [r["v"] for r in recs if r.get("t") == "sample"]
+        return kf
+
     def one(job):
+        if job[0] == "cfg":
+            return one_config(job[1])
         bi, build, mode, part = job
         # the primary build always runs; further compilers/standards only while there is time
         if bi > 0 and (ctx.time_left() < 300 or time.time() - ctx.t0 > BUDGET_S):
@@ -588,6 +663,9 @@ def run(ctx):
         return kf
 
     workers = int(os.environ.get("VERIF_JOBS", "0") or 0) or min(vlib.NCPU, 10)
+    # primary harness binaries first (they take longest to compile), then the small configuration binaries, then the secondary builds
+    prim = [j for j in jobs if j[0] == 0]
+    jobs = prim + [("cfg", j) for j in cjobs] + [j for j in jobs if j[0] != 0]
     files = vlib.parallel([(lambda j=j: one(j)) for j in jobs], workers=workers)
     ctx.samples = pick_samples(samples)
     ctx.viols.sort(key=lambda v: (v["sig"], v["harness"] or ""))   # the reported instance of a signature does not depend on scheduling
@@ -613,6 +691,13 @@ def run(ctx):
     for k, v in counts.items():
         ctx.stats[k] = v
     ctx.stats["builds"] = len(b["builds"]) * 2
+    ctx.stats["build_configurations"] = len(cjobs)
+    ctx.stats["build_configurations_with_checking_enabled"] = sum(1 for j in cjobs if expected_checking(j[3], j[4], j[2]))
+    ctx.note("build configurations {no NDEBUG, NDEBUG} x {none, THROW, TERMINATE, NO_CHECKING} x {xspan.hpp, xspan_impl.hpp}; checking is enabled (reference table expected_checking, restating the pinned "
+             "default-selection block: an explicit request wins over NDEBUG) in: %s" % sorted(set(j[0] for j in cjobs if expected_checking(j[3], j[4], j[2]))))
+    h = default_block_hash()
+    if h != PINNED_DEFAULT_BLOCK:
+        ctx.note("the default-selection block of xspan_impl.hpp differs textually from the pinned one the configuration table restates (hash %s, pinned %s); the table was NOT adapted" % (h, PINNED_DEFAULT_BLOCK))
     if newly:
         ctx.note("instantiations the manifest expected to be ill-formed compile on this tree and were explored: %s" % newly[:10])
     ctx.note("element types: %s; builds (compiler, standard, optimisation, scope): %s" % ([ELEMS[i] for i in sorted(set(b["elems"]) | set(b["selems"]))], b["builds"]))
@@ -645,6 +730,10 @@ def run(ctx):
 def replay(ctx, rec):
     tier = rec.get("tier", ctx.tier)
     tag = rec.get("harness") or ""
+    if tag.startswith("c16cfg-"):
+        job = tuple(rec["build"][1:])
+        ctx.run_harness(build_config(job), list(rec["args"]), tag=config_tag(job), build=list(rec["build"]))
+        return
     mode = "nocheck" if "-nocheck-" in tag else "checked"
     build = tuple(rec["build"]) if rec.get("build") else bounds(tier)["builds"][0]
     if len(build) < 4:
